@@ -366,6 +366,9 @@ func C17(ctx *core.Ctx) int {
 		}
 		rep := map[string]any{"name": c.p.Name, "lang": c.lang, "text": c.text}
 		ran += c.t.TestRan
+		if strings.HasPrefix(c.t.TestLog, "harness:") {
+			core.HarnessError("target %s: %s", c.lang, core.Trunc(c.t.TestLog, 600))
+		}
 		if !c.t.TestOK && strings.Contains(c.t.TestLog, "timeout after") {
 			continue // wall-clock limit of the runner process: not a verdict
 		}
